@@ -180,6 +180,10 @@ class TorchBackend(BaseBackend):
         then DDE simulation on the torch backend should use ``solver='scipy'``
         (see :meth:`_solve_scipy_dde` below).
         """
+        if len(args) > 0 and callable(args[0]) and hasattr(args[0], 'update'):
+            raise NotImplementedError("The torch backend cannot update the delay history in its Euler loop: delayed models "
+                                      "would be integrated against their initial state. Use solver='scipy' instead.")
+
         # preparations for fixed step-size integration
         idx = 0
         steps = int(np.round(T / dt))
